@@ -78,3 +78,114 @@ prop(
         "Default of every driven item is the identity of merge (checked by self_check)",
     ],
 )
+
+prop(
+    "C03",
+    level="exploration",
+    technique="reference-model runtime monitor + structural invariant at quiescence: pool of real treaps shadowed by Vecs, "
+              "read-only walk of the public node fields after every operation, harness-controlled priorities",
+    level_text="Exploration: hundreds of thousands of random histories (split_at/split_by/merge/insert/remove/first/last/"
+               "collect/size with non-commuting lazy modifications attached at roots of whole treaps and of split-out "
+               "parts) under six priority regimes including ties and monotone priorities, plus a bounded scope (n<=5 "
+               "elements x every weak ordering of the priorities x every op sequence to a stated length) enumerated "
+               "completely. Every API result is compared with a Vec model and, after every operation, a walk that does "
+               "not perturb pending state checks the effective sequence and the stored aggregate of every node.",
+    level_note="Trusted: the two harness item types (affine-sum and free-word items, lawful by construction), the Vec model, "
+               "the walk. Not covered: items that break the laws, treaps larger than ~60 elements in this mode (C16 covers size).",
+    runs=[
+        dict(engine="treapmon", profile="release", args=["--mode", "seq"], group="random"),
+        dict(engine="treapmon", profile="release", args=["--mode", "seq-exhaustive"], group="exhaustive"),
+        dict(engine="treapmon", profile="dev", args=["--mode", "seq", "--cases", "40000"], group="random",
+             label="treapmon/dev/seq (overflow checks on)"),
+    ],
+    floor=dict(quick=500_000, thorough=10_000_000),
+    counter_floors=dict(quick=dict(walk_checks=10_000_000, lazy_attachments=1_000_000, api_results_checked=5_000_000),
+                        thorough=dict(walk_checks=200_000_000)),
+    rule="one evaluation = one history on a pool of real treaps, each operation followed by the read-only walk check of "
+         "every live treap and ended by size/first/last/collect on all of them. distinct_nontrivial = distinct histories in "
+         "which a lazy modification was attached (root or split-out middle part) and at least one structural operation "
+         "(merge/split/insert/remove) occurred; exhaustive scope: enumerated histories containing an attachment.",
+    assumptions=[
+        "items are lawful (aggregate is a function of the subtree, modifications distribute over it)",
+        "split_by predicates are prefix-monotone (by construction: membership of the first k element ids, or a value "
+        "threshold when the model is sorted)",
+    ],
+)
+
+prop(
+    "C16",
+    level="exploration",
+    crash_is_violation=True,
+    technique="structural invariant monitor at staged checkpoints: iterative walk of the public node fields (heap order on "
+              "every edge, height vs 5*log2(n+1)+20, node count) under adversarial growth orders with library-drawn priorities",
+    level_text="Exploration: twelve adversarial growth/rotation workloads (sorted appends, front/middle insertion, "
+               "split-and-swap rotations, remove/append cycles, sorted insertion via split_by, bulk merges, random mixes, "
+               "grow-shrink-grow) up to 2^19 (quick) / 2^21 (thorough) elements with the library's own priorities; at staged "
+               "checkpoints (n = 16, 64, 256, ... and after each phase) every parent-child edge is checked for heap order in "
+               "one consistent direction and the height against 5*log2(n+1)+20. A degenerate priority source is reported "
+               "at n=64..256, before recursion depth matters.",
+    level_note="Trusted: the iterative walk. The bound is probabilistic for a correct treap (failure < 1e-15). A process death "
+               "(stack exhaustion) is mapped to a violation for this property. Not covered: histories outside the driven orders.",
+    runs=[
+        dict(engine="treapmon", profile="release", args=["--mode", "shape"], group="shape",
+             timeout=dict(quick=600, thorough=3600)),
+    ],
+    floor=dict(quick=24, thorough=24),
+    counter_floors=dict(quick=dict(edges_checked=5_000_000, checkpoints=150), thorough=dict(edges_checked=20_000_000)),
+    rule="one evaluation = one (workload, target size) run with staged checkpoints; distinct_nontrivial = distinct "
+         "(workload, size) pairs; coverage counters give the number of checkpoints, edges checked and the worst "
+         "height/log2(n) ratio seen.",
+    assumptions=["priorities are left exactly as the library draws them", "single-threaded (racing on the priority source is C17)"],
+)
+
+prop(
+    "C13",
+    level="exploration",
+    technique="differential runtime monitor: every table entry of Sieve::new(N) for every limit N compared with trial "
+              "division / an independent Eratosthenes bit-sieve",
+    level_text="Exploration with an exhaustive sub-space: for EVERY limit N in 0..=12000 (quick) / 0..=30000 (thorough) a fresh "
+               "Sieve is built and all of min_prime, is_prime, primes and factorize(n) for every n<=N are compared with "
+               "trial division, so every position of N relative to primes and prime squares is hit; limits adjacent to "
+               "p, p^2, p*q up to 10^6 and the limits 10^6 (and 10^7) are compared element by element with an independent "
+               "sieve of Eratosthenes.",
+    level_note="Trusted: the engine's trial division and bit-sieve (cross-checked against each other and against pi(x) at "
+               "nine points on every run; a failed self-check is inconclusive). Not covered: limits above 10^7.",
+    runs=[
+        dict(engine="sievemon", profile="release", args=["--every-max", "12000"], group="all",
+             tiers=("quick",)),
+        dict(engine="sievemon", profile="release", args=[], group="all", tiers=("thorough",)),
+        dict(engine="sievemon", profile="dev", args=["--mode", "every_limit"], group="all",
+             label="sievemon/dev/every_limit (overflow + bounds checks on)"),
+    ],
+    floor=dict(quick=10_000, thorough=30_000),
+    counter_floors=dict(quick=dict(entries_checked=300_000_000, limit_classes=10), thorough=dict(entries_checked=2_000_000_000)),
+    rule="one evaluation = one limit N whose complete tables (min_prime, is_prime, primes, factorize of every n<=N) were "
+         "compared with the oracle; distinct_nontrivial = distinct limits N>=4 (the table then contains a composite, so the "
+         "sieve's inner loop has written an entry).",
+    assumptions=["n = 0 is outside factorize's domain; min_prime is judged for 2<=n<=N only"],
+)
+
+prop(
+    "C15",
+    level="exploration",
+    technique="differential runtime monitor: iterator output compared element by element with brute-force enumeration "
+              "(filter-all-values / bit-deposit models, sorted distinct arrangements, fixed offset lists)",
+    level_text="Exploration with exhaustive sub-spaces: submask and supermask iteration for EVERY value of u8, i8, u16, i16 "
+               "(exact sequence equality incl. order, first and last element), structured and random masks with bounded "
+               "popcount for the ten wider types; next_permutation / iter_permutations for every sequence over {0,1,2} up "
+               "to length 7 and from every arrangement of up to 8 distinct elements; the three neighbour iterators at "
+               "every cell of every grid up to 6x6 (order included) plus large and degenerate grids.",
+    level_note="Trusted: the brute-force models (each expected sequence is itself proved - length, monotonicity, membership - "
+               "before the library is called; a failed proof is inconclusive). The neighbour offset orders are frozen from "
+               "the documented behaviour. Not covered: masks of the wide types with more than 12/16 free bits.",
+    runs=[
+        dict(engine="itermon", profile="release", args=[], group="all"),
+        dict(engine="itermon", profile="dev", args=["--light"], group="all", label="itermon/dev/light (overflow checks on)"),
+    ],
+    floor=dict(quick=300_000, thorough=1_000_000),
+    counter_floors=dict(quick=dict(items_compared=150_000_000, neighbour_counts=15), thorough=dict(items_compared=2_000_000_000)),
+    rule="one evaluation = one iterator call whose complete output was compared with the model; distinct_nontrivial = "
+         "distinct inputs among masks with >=2 free bits, sequences with >=2 distinct elements and grid cells with at "
+         "least one neighbour.",
+    assumptions=["the fixed neighbour orders are the documented ones: 4: (0,1),(-1,0),(0,-1),(1,0); diagonal: (-1,1),(-1,-1),(1,-1),(1,1); 8: counter-clockwise from (0,1)"],
+)
